@@ -96,3 +96,29 @@ impl<P> DerefMut for IoBuffer<P> {
         self.buffer.occupied_mut()
     }
 }
+
+/// Hooks for external verification harnesses. Compiled only with the `verif` feature.
+#[cfg(feature = "verif")]
+impl<P> IoBuffer<P> {
+    /// `(window.start, window.end, capacity)`.
+    pub fn verif_window(&self) -> (usize, usize, usize) {
+        (self.buffer.window.start, self.buffer.window.end, self.buffer.capacity())
+    }
+    pub fn verif_poisoned(&self) -> bool {
+        self.poisoned
+    }
+    pub fn verif_pipe(&self) -> &P {
+        &self.pipe
+    }
+    pub fn verif_pipe_mut(&mut self) -> &mut P {
+        &mut self.pipe
+    }
+    /// Put the buffer into an arbitrary window state.
+    pub fn verif_set_window(&mut self, start: usize, end: usize) {
+        self.buffer.window = start..end;
+    }
+    /// Whole underlying storage, regardless of the window.
+    pub fn verif_data_mut(&mut self) -> &mut [u8] {
+        &mut self.buffer.data
+    }
+}
